@@ -32,13 +32,20 @@ AppendNL(lst, empty) ==
       num == IF Len(lst) > 0 /\ lst[Len(lst)].t = "com" /\ lst[Len(lst)].line THEN num0 - 1 ELSE num0
   IN lst \o [j \in 1..num |-> DNl]
 
+\* decorations are keyed by (node, point): a repeated dec fragment (File.Imports) shares the list of
+\* the first fragment with the same node and name
+Canon(F, d) == IF F[d].dup THEN CHOOSE j \in 1..d : F[j].k = "dec" /\ F[j].node = F[d].node /\ F[j].name = F[d].name
+                                  /\ \A j2 \in 1..(j - 1) : ~(F[j2].k = "dec" /\ F[j2].node = F[d].node /\ F[j2].name = F[d].name)
+               ELSE d
+
 \* attachToDecoration: comments and breaks become decorations of dec fragment d
 RECURSIVE Attach(_, _, _, _)
 Attach(F, st, swept, d) ==
   IF swept = <<>> THEN st
   ELSE LET i == Head(swept)
-           nd == IF F[i].k = "com" THEN Append(st.decs[d], DCom(F, i)) ELSE AppendNL(st.decs[d], F[i].empty)
-       IN Attach(F, [st EXCEPT !.att[i] = d, !.decs[d] = nd], Tail(swept), d)
+           cd == Canon(F, d)
+           nd == IF F[i].k = "com" THEN Append(st.decs[cd], DCom(F, i)) ELSE AppendNL(st.decs[cd], F[i].empty)
+       IN Attach(F, [st EXCEPT !.att[i] = d, !.decs[cd] = nd], Tail(swept), d)
 
 \* findDecoration(stopAtNewline, stopAtEmptyLine, from, direction)
 RECURSIVE FindDec(_, _, _, _, _, _, _)
@@ -134,8 +141,8 @@ Pass2(F, st, i) ==
                               !.aft = IF na # 0 THEN SetSp(st.aft, na, sp) ELSE st.aft], i + 1)
         ELSE LET r1 == FindDec(F, st.att, FALSE, FALSE, i, -1, <<>>)
                  r2 == FindDec(F, st.att, FALSE, FALSE, i, 1, <<>>)
-             IN IF r1.found THEN Pass2(F, [st EXCEPT !.decs[r1.dec] = AppendNL(@, F[i].empty)], i + 1)
-                ELSE IF r2.found THEN Pass2(F, [st EXCEPT !.decs[r2.dec] = AppendNL(@, F[i].empty)], i + 1)
+             IN IF r1.found THEN Pass2(F, [st EXCEPT !.decs[Canon(F, r1.dec)] = AppendNL(@, F[i].empty)], i + 1)
+                ELSE IF r2.found THEN Pass2(F, [st EXCEPT !.decs[Canon(F, r2.dec)] = AppendNL(@, F[i].empty)], i + 1)
                 ELSE [st EXCEPT !.panic = TRUE]
   ELSE Pass2(F, st, i + 1)
 
@@ -157,11 +164,14 @@ ApplyDecs(rs, ds) ==
            r3 == IF d.t = "nl" \/ (d.t = "com" /\ d.line) THEN [ln |-> r2.ln + 1, fresh |-> TRUE, out |-> r2.out] ELSE r2
        IN ApplyDecs(r3, Tail(ds))
 
+(* File.Imports repeats the import specs of the import declarations: the fragment list holds   *)
+(* their fragments a second time (dup = TRUE), and the restorer does not render that list.    *)
 RECURSIVE Render(_, _, _, _)
 Render(F, st, i, rs) ==
   IF i > Len(F) THEN rs
   ELSE LET f == F[i] IN
-    CASE f.k = "dec" /\ f.name = "Start" -> Render(F, st, i + 1, ApplyDecs(ApplySpace(rs, Sp(st.bef, f.node)), st.decs[i]))
+    CASE f.dup -> Render(F, st, i + 1, rs)
+      [] f.k = "dec" /\ f.name = "Start" -> Render(F, st, i + 1, ApplyDecs(ApplySpace(rs, Sp(st.bef, f.node)), st.decs[i]))
       [] f.k = "dec" /\ f.name = "End" -> Render(F, st, i + 1, ApplySpace(ApplyDecs(rs, st.decs[i]), Sp(st.aft, f.node)))
       [] f.k = "dec" -> Render(F, st, i + 1, ApplyDecs(rs, st.decs[i]))
       [] f.k \in {"tok", "str", "bad"} -> Render(F, st, i + 1, [ln |-> rs.ln, fresh |-> FALSE, out |-> Append(rs.out, [id |-> i, ln |-> rs.ln])])
@@ -172,7 +182,8 @@ RECURSIVE SrcItems(_, _, _)
 SrcItems(F, i, ln) ==
   IF i > Len(F) THEN <<>>
   ELSE LET f == F[i] IN
-    CASE f.k \in {"tok", "str", "bad", "com"} -> << [id |-> i, ln |-> ln] >> \o SrcItems(F, i + 1, ln + (IF f.k = "com" /\ f.line THEN 0 ELSE 0))
+    CASE f.dup -> SrcItems(F, i + 1, ln)
+      [] f.k \in {"tok", "str", "bad", "com"} -> << [id |-> i, ln |-> ln] >> \o SrcItems(F, i + 1, ln)
       [] f.k = "nl" -> SrcItems(F, i + 1, ln + (IF f.empty THEN 2 ELSE 1))
       [] OTHER -> SrcItems(F, i + 1, ln)
 
